@@ -1,6 +1,238 @@
-//! Sanitizer jobs (Miri / TSan / valgrind) - supporting evidence for the schedule clauses.
-use crate::ev::Run;
+//! Sanitizer jobs (Miri / TSan / valgrind): supporting evidence that the schedules the
+//! behavioural monitors judge are free of UB and data races. Thorough tier only.
 
-pub fn c03_sanitizer_jobs(_run: &mut Run) {}
+use super::c03::run_parallel;
+use super::rules_driver::truncate;
+use super::searchlib::History;
+use crate::bb::{self, SpawnOpts};
+use crate::ev::{Run, Tier};
+use crate::rng::{hash64, Rng};
+use crate::sess::*;
+use serde_json::json;
+use std::process::Command;
+use std::time::{Duration, Instant};
 
-pub fn c17_valgrind(_run: &mut Run, _plain: &std::path::PathBuf, _roots: &[crate::mon::searchlib::History]) {}
+struct JobOut {
+    ok: bool,
+    sanitizer_report: bool,
+    summary: String,
+    tail: String,
+}
+
+fn run_cmd(mut cmd: Command, timeout: Duration) -> (Option<i32>, String) {
+    cmd.stdout(std::process::Stdio::piped()).stderr(std::process::Stdio::piped());
+    let mut child = match cmd.spawn() {
+        Ok(c) => c,
+        Err(e) => return (None, format!("spawn failed: {}", e)),
+    };
+    let mut so = child.stdout.take().unwrap();
+    let mut se = child.stderr.take().unwrap();
+    let t1 = std::thread::spawn(move || {
+        let mut s = String::new();
+        let _ = std::io::Read::read_to_string(&mut so, &mut s);
+        s
+    });
+    let t2 = std::thread::spawn(move || {
+        let mut s = String::new();
+        let _ = std::io::Read::read_to_string(&mut se, &mut s);
+        s
+    });
+    let start = Instant::now();
+    let status = loop {
+        match child.try_wait() {
+            Ok(Some(s)) => break s.code(),
+            Ok(None) => {
+                if start.elapsed() > timeout {
+                    let _ = child.kill();
+                    let _ = child.wait();
+                    break None;
+                }
+                std::thread::sleep(Duration::from_millis(50));
+            }
+            Err(_) => break None,
+        }
+    };
+    let out = format!("{}\n{}", t1.join().unwrap_or_default(), t2.join().unwrap_or_default());
+    (status, out)
+}
+
+fn judge(status: Option<i32>, out: &str) -> JobOut {
+    let report = out.contains("Undefined Behavior") || out.contains("Data race detected") || out.contains("WARNING: ThreadSanitizer") || out.contains("data race");
+    let ok = status == Some(0) && out.contains("GO-JOB ok") && !report;
+    let summary = out.lines().find(|l| l.starts_with("GO-JOB seed=")).unwrap_or("").to_string();
+    let tail: Vec<&str> = out.lines().rev().take(12).collect();
+    JobOut { ok, sanitizer_report: report, summary, tail: tail.into_iter().rev().collect::<Vec<_>>().join("\n") }
+}
+
+/// Miri many seeds + TSan on the real two-thread `go` composition (wmon go-job).
+pub fn c03_sanitizer_jobs(run: &mut Run) {
+    if run.tier != Tier::Thorough {
+        run.set("sanitizer_jobs", json!("thorough tier only (Miri seeds and TSan on the two-thread go composition)"));
+        return;
+    }
+    let seed = run.seed;
+    let mut jobs_report = Vec::new();
+    // ---- Miri -------------------------------------------------------------------------------
+    // build once (cargo serialises), then 16 seeds in parallel
+    let mk = |s: u64, fp: Option<&str>| {
+        let mut c = Command::new("cargo");
+        c.current_dir("/verif")
+            .args(["+nightly", "miri", "run", "--release", "--manifest-path", "/verif/harness/Cargo.toml", "--target-dir", "/verif/.target/miri", "--", "go-job", &s.to_string(), "3", "miri"])
+            .env("CARGO_NET_OFFLINE", "true")
+            .env("MIRIFLAGS", format!("-Zmiri-disable-isolation -Zmiri-seed={}", s))
+            .env_remove("RUSTFLAGS");
+        if let Some(fp) = fp {
+            c.env("WMON_FP", fp);
+        }
+        c
+    };
+    let t0 = Instant::now();
+    let (st, out) = run_cmd(mk(seed * 100, None), Duration::from_secs(1500));
+    let first = judge(st, &out);
+    let mut miri_ok = first.ok as u64;
+    let mut miri_runs = 1u64;
+    let mut sigs: Vec<String> = vec![first.summary.clone()];
+    if !first.ok {
+        if first.sanitizer_report {
+            run.acc.violation("C03|miri|0".into(), format!("Miri reported undefined behaviour or a data race in the two-thread go composition (seed {}): {}", seed * 100, truncate(&first.tail, 600)), json!({"kind": "miri", "seed": seed * 100}));
+        } else if out.contains("GO-JOB problem") {
+            run.acc.violation("C03|miri-oracle|0".into(), format!("go composition under Miri failed its own oracle: {}", truncate(&first.tail, 600)), json!({"kind": "miri", "seed": seed * 100}));
+        } else {
+            run.acc.inconclusive.push(format!("Miri job did not complete (status {:?}): {}", st, truncate(&first.tail, 300)));
+        }
+    } else {
+        let n = 15u64;
+        let res = run_parallel(15, n as usize, |i| {
+            let s = seed * 100 + 1 + i as u64;
+            let fp = if i % 3 == 2 { Some("search_before_send=30000;prob=60") } else if i % 3 == 1 { Some("io_loop_top=5000,search_root_move=2000;prob=50") } else { None };
+            let (st, out) = run_cmd(mk(s, fp), Duration::from_secs(1500));
+            (s, st, judge(st, &out))
+        });
+        for (s, st, j) in res {
+            miri_runs += 1;
+            if j.ok {
+                miri_ok += 1;
+                sigs.push(j.summary.clone());
+            } else if j.sanitizer_report {
+                run.acc.violation(format!("C03|miri|{}", s), format!("Miri reported undefined behaviour or a data race in the two-thread go composition (seed {}): {}", s, truncate(&j.tail, 600)), json!({"kind": "miri", "seed": s}));
+            } else if j.tail.contains("GO-JOB problem") {
+                run.acc.violation(format!("C03|miri-oracle|{}", s), format!("go composition under Miri failed its own oracle (seed {}): {}", s, truncate(&j.tail, 600)), json!({"kind": "miri", "seed": s}));
+            } else {
+                run.acc.count("miri_seeds_incomplete", 1);
+                let _ = st;
+            }
+        }
+    }
+    run.acc.evaluations += miri_runs * 3;
+    jobs_report.push(json!({"tool": "miri", "program": "wmon go-job (find_and_play_best_move on tiny positions, 3 go per seed)", "seeds": miri_runs, "clean": miri_ok, "wall_s": t0.elapsed().as_secs(), "summaries": sigs.iter().take(4).collect::<Vec<_>>()}));
+    // ---- TSan -------------------------------------------------------------------------------
+    let t0 = Instant::now();
+    let mut b = Command::new("cargo");
+    b.current_dir("/verif")
+        .args(["+nightly", "build", "--release", "-Zbuild-std", "--target", "x86_64-unknown-linux-gnu", "--manifest-path", "/verif/harness/Cargo.toml", "--target-dir", "/verif/.target/tsan"])
+        .env("CARGO_NET_OFFLINE", "true")
+        .env("RUSTFLAGS", "-Zsanitizer=thread");
+    let (st, out) = run_cmd(b, Duration::from_secs(1200));
+    let bin = "/verif/.target/tsan/x86_64-unknown-linux-gnu/release/wmon";
+    if st != Some(0) || !std::path::Path::new(bin).exists() {
+        run.acc.inconclusive.push(format!("TSan build failed: {}", truncate(&out, 300)));
+    } else {
+        let n = 32usize;
+        let res = run_parallel(16, n, |i| {
+            let mut c = Command::new(bin);
+            c.args(["go-job", &(seed * 1000 + i as u64).to_string(), "150", "native"]).env("TSAN_OPTIONS", "halt_on_error=0 exitcode=66");
+            if i % 2 == 1 {
+                c.env("WMON_FP", "search_before_send=2000,io_loop_top=800,io_after_recv=800;prob=60");
+            }
+            let (st, out) = run_cmd(c, Duration::from_secs(600));
+            (i, st, judge(st, &out))
+        });
+        let mut clean = 0;
+        for (i, st, j) in res {
+            run.acc.evaluations += 150;
+            if j.ok {
+                clean += 1;
+            } else if j.sanitizer_report || st == Some(66) {
+                run.acc.violation(format!("C03|tsan|{}", i), format!("ThreadSanitizer reported a race in the two-thread go composition: {}", truncate(&j.tail, 600)), json!({"kind": "tsan", "seed": seed * 1000 + i as u64}));
+            } else if j.tail.contains("GO-JOB problem") {
+                run.acc.violation(format!("C03|tsan-oracle|{}", i), format!("go composition under TSan failed its own oracle: {}", truncate(&j.tail, 600)), json!({"kind": "tsan", "seed": seed * 1000 + i as u64}));
+            } else {
+                run.acc.count("tsan_jobs_incomplete", 1);
+            }
+        }
+        if clean == 0 {
+            run.acc.inconclusive.push("no TSan job completed".into());
+        }
+        jobs_report.push(json!({"tool": "tsan (-Zsanitizer=thread -Zbuild-std)", "program": "wmon go-job, 150 go per process", "processes": n, "clean": clean, "wall_s": t0.elapsed().as_secs()}));
+    }
+    run.set("sanitizer_jobs", json!(jobs_report));
+}
+
+/// Lifecycle sessions under valgrind memcheck (covers the mimalloc C allocator Miri cannot enter).
+pub fn c17_valgrind(run: &mut Run, plain: &std::path::PathBuf, roots: &[History]) {
+    if run.tier != Tier::Thorough {
+        run.set("sanitizer_jobs", json!("thorough tier only (valgrind memcheck on lifecycle sessions)"));
+        return;
+    }
+    let seed = run.seed;
+    let n = 24usize;
+    let t0 = Instant::now();
+    let res = run_parallel(12, n, |i| {
+        let mut rng = Rng::stream(seed, 0x7A16 + i as u64);
+        let mut opts = SpawnOpts::default();
+        opts.valgrind = true;
+        let mut notes: Vec<String> = Vec::new();
+        let mut s = match Sess::start(plain, opts, false) {
+            Ok(s) => s,
+            Err(e) => return (false, vec![format!("valgrind session start failed: {}", e)], String::new()),
+        };
+        s.eng.keep_workdir();
+        for _ in 0..3 {
+            let h = &roots[rng.below(roots.len() as u64) as usize];
+            s.position(h);
+            s.eng.send(&super::c17::garbage_line(&mut rng));
+            let clock = 100 + rng.below(200);
+            let g = s.go(&format!("{} {} movestogo 1", if h.end.stm == crate::oracle::Color::White { "wtime" } else { "btime" }, clock), Duration::from_secs(120));
+            if g.bestmove.is_none() {
+                notes.push("go not answered under valgrind within 2 min".into());
+                break;
+            }
+            s.eng.drain(Duration::from_millis(200));
+        }
+        let eof = i % 2 == 0;
+        if eof {
+            s.eng.close_stdin();
+        } else {
+            s.eng.send("quit");
+        }
+        let st = s.eng.wait_exit(Duration::from_secs(60));
+        let log = std::fs::read_to_string(s.eng.workdir.join("valgrind.log")).unwrap_or_default();
+        let dir = s.eng.workdir.clone();
+        drop(s);
+        let _ = std::fs::remove_dir_all(dir);
+        let errors = st == Some(Some(97)) || log.contains("Invalid read") || log.contains("Invalid write") || log.contains("uninitialised") || log.contains("Invalid free");
+        if st.is_none() {
+            notes.push("process did not end within 60 s under valgrind".into());
+        }
+        (errors, notes, log)
+    });
+    let mut clean = 0;
+    let mut incomplete: Vec<String> = Vec::new();
+    for (i, (errors, notes, log)) in res.into_iter().enumerate() {
+        run.acc.evaluations += 1;
+        if errors {
+            run.acc.violation(format!("C17|valgrind|{}", hash64(&log)), format!("valgrind memcheck reported memory errors in a lifecycle session: {}", truncate(&log, 600)), json!({"kind": "valgrind", "session": i}));
+        } else if notes.is_empty() {
+            clean += 1;
+        }
+        for nn in notes {
+            run.acc.count("valgrind_sessions_incomplete", 1);
+            incomplete.push(nn);
+        }
+    }
+    if clean == 0 {
+        run.acc.inconclusive.push(format!("no valgrind session completed cleanly: {:?}", incomplete.iter().take(3).collect::<Vec<_>>()));
+    }
+    run.set("sanitizer_incomplete_notes", json!(incomplete.iter().take(5).collect::<Vec<_>>()));
+    run.set("sanitizer_jobs", json!([{"tool": "valgrind memcheck 3.19", "program": "plain walleye binary (mimalloc included): handshake, position, garbage, timed go x3, quit or EOF", "sessions": n, "clean": clean, "wall_s": t0.elapsed().as_secs()}]));
+}
